@@ -22,6 +22,7 @@ TRUSTED_BASE = ['rustc nightly MIR construction and trait resolution']
 ASSUMPTIONS = []
 
 MOD = 'portfolio::bookkeeping::costs::'
+SKEY = r"&?(?:'\w+ )?std::string::String"      # the security key of the per-security maps, owned or borrowed
 DAY = MOD + 'MaxSingleDayCosts'
 
 
@@ -123,7 +124,7 @@ def run(prog, rep, tier='quick', config='default'):
                       detail='the cost tracker no longer restricts itself to the default, non-registered affiliate (found conditions: %s)' % sorted(conds))
 
     # ------------------------------------------------------------------ R17c
-    ins = [c for c in ob.calls if c.short == 'insert' and re.search(r'HashMap<std::string::String, util::decimal::ConstrainedDecimal', ob.ty.get(c.arg_local(0), ''))]
+    ins = [c for c in ob.calls if c.short == 'insert' and re.search(r'HashMap<' + SKEY + r', util::decimal::ConstrainedDecimal', ob.ty.get(c.arg_local(0), ''))]
     if ins:
         o = mir.provenance(ob, ins[0].args[-1], follow_all_call_args=True)
         if o.has_call(r'Decimal::max$|cmp::Ord::max$|cmp::max$') and not o.has_call(r'Decimal::min$|cmp::min$'):
@@ -155,7 +156,7 @@ def run(prog, rep, tier='quick', config='default'):
     for c in ps.calls:
         if c.short != 'insert' or ps.loop_of(c.bb) is None:
             continue
-        if not re.search(r'^&mut std::collections::HashMap<std::string::String, util::decimal::ConstrainedDecimal', ps.ty.get(c.arg_local(0), '')):
+        if not re.search(r'^&mut std::collections::HashMap<' + SKEY + r', util::decimal::ConstrainedDecimal', ps.ty.get(c.arg_local(0), '')):
             continue
         o = mir.provenance(ps, c.args[0])
         if any(of == DAY for (of, fl) in o.fields):
@@ -231,16 +232,34 @@ def run(prog, rep, tier='quick', config='default'):
             rep.ok('R17g', k, where=c.where(), fn=f.name, detail='%d append/extend site(s) feed the list, none through a filtering adaptor' % n_feed)
 
     # ------------------------------------------------------------------ R17h: the opening cost of a security is recorded once
-    OPEN_RX = r'HashMap<std::string::String, \(time::Date, util::decimal::ConstrainedDecimal'
+    # the map holding, per security, the cost base before its first transaction: keyed by the security (String), its values derive
+    # from `TxDelta.pre_status` — whatever the value type is (a (date, cost) tuple today, possibly a small struct)
+    def _is_open_map_ty(t):
+        return re.search(r"(HashMap|Entry|VacantEntry|OccupiedEntry)<.*&?('\w+ )?std::string::String, ", t or '') is not None
+    open_tys = set()
+    for c in ps.calls:
+        if c.short in ('insert', 'or_insert', 'or_insert_with', 'or_insert_with_key') and c.args and _is_open_map_ty(ps.ty.get(c.arg_local(0), '')):
+            vo = mir.provenance(ps, c.args[-1], follow_all_call_args=True)
+            vf = set(vo.fields)
+            for kind in vo.aggs:
+                g2 = prog.by_crate[ps.crate].get(kind[len('closure:'):]) if kind.startswith('closure:') else None
+                if g2 is not None:
+                    vf |= {x for b2 in g2.blocks.values() for st in b2['stmts'] for pl in g2.stmt_sources(st) for x in mir.place_fields(pl)}
+            if any(fl == 'pre_status' for (_, fl) in vf):
+                m = re.search(r'std::string::String, (.*?)(, std::hash::RandomState|>$|, std::alloc)', ps.ty.get(c.arg_local(0), '') or '')
+                if m:
+                    open_tys.add(m.group(1))
+    vt = '|'.join(re.escape(t) for t in sorted(open_tys)) or r'\(time::Date, util::decimal::ConstrainedDecimal'
+    OPEN_RX = r"HashMap<" + SKEY + r", (%s)" % vt
     opens = [c for c in ps.calls if c.short == 'insert' and re.search(OPEN_RX, ps.ty.get(c.arg_local(0), ''))]
     # `entry(sec).or_insert(..)` writes only when absent by construction
     entry_inserts = [c for c in ps.calls if c.short in ('or_insert', 'or_insert_with', 'or_insert_with_key', 'or_default') and
-                     re.search(r'Entry<.*std::string::String, \(time::Date, util::decimal::ConstrainedDecimal', ps.ty.get(c.arg_local(0), ''))]
+                     re.search(r'Entry<.*' + SKEY + r', (%s)' % vt, ps.ty.get(c.arg_local(0), ''))]
     # `match map.entry(sec) { Entry::Vacant(v) => v.insert(..), .. }`: a vacant entry is absent by construction
     entry_inserts += [c for c in ps.calls if c.short == 'insert' and
-                      re.search(r'VacantEntry<.*std::string::String, \(time::Date, util::decimal::ConstrainedDecimal', ps.ty.get(c.arg_local(0), ''))]
+                      re.search(r'VacantEntry<.*' + SKEY + r', (%s)' % vt, ps.ty.get(c.arg_local(0), ''))]
     overwrites = [c for c in ps.calls if c.short in ('insert', 'get_mut', 'into_mut', 'insert_entry') and
-                  re.search(r'OccupiedEntry<.*std::string::String, \(time::Date, util::decimal::ConstrainedDecimal', ps.ty.get(c.arg_local(0), ''))]
+                  re.search(r'OccupiedEntry<.*' + SKEY + r', (%s)' % vt, ps.ty.get(c.arg_local(0), ''))]
     for c in overwrites:
         rep.violation('R17h', 'opening-cost-recorded-once#occupied', where=c.where(), fn=ps.name,
                       detail='the entry holding a security\'s cost base before its first transaction is changed through an occupied entry (%s)' % c.short)
